@@ -19,6 +19,7 @@ import (
 	"github.com/robustirc/robustirc/internal/ircserver"
 	"github.com/robustirc/robustirc/internal/robust"
 	"github.com/robustirc/robustirc/internal/verifsim/core"
+	"github.com/robustirc/robustirc/internal/verifsim/verifrt"
 	"gopkg.in/sorcix/irc.v2"
 )
 
@@ -512,7 +513,12 @@ func e1Execute(sc *e1Scenario, prop string, res *core.Result) error {
 		nn = 5
 	}
 	for k := 0; k < nn; k++ {
-		n := &e1Node{idx: k, dir: filepath.Join(root, fmt.Sprintf("n%d", k))}
+		// replica k iterates maps ascending (0), descending (1) or in seeded permutations (2+)
+		mode := k
+		if mode > 2 {
+			mode = 2
+		}
+		n := &e1Node{idx: k, dir: filepath.Join(root, fmt.Sprintf("n%d", k)), order: &verifrt.Order{Mode: mode, Seed: core.Mix(sc.Seed, uint64(k))}}
 		if err := n.start(); err != nil {
 			return err
 		}
@@ -551,6 +557,12 @@ func e1Execute(sc *e1Scenario, prop string, res *core.Result) error {
 			}
 			r.model.finalChecks()
 		}
+	}
+	for _, n := range r.nodes {
+		res.Add("seeded_map_iterations_ge2", int64(n.order.Calls))
+	}
+	if os.Getenv("VERIF_MAPSEAM") == "1" {
+		res.Add("mapseam_runs", 1)
 	}
 	res.SimMillis = time.Since(t0).Milliseconds()
 	res.Steps = len(sc.Steps)
